@@ -910,22 +910,26 @@ TRUSTED = [
 class _Sharded:
     """ctx proxy: the recorded traces are large Gallina terms, so evaluate them in small shards."""
 
-    def __init__(self, ctx):
+    def __init__(self, ctx, name):
+        import random
         self._ctx = ctx
+        self.rng = random.Random(f"{ctx.seed}/{ctx.pid}/{name}")     # own stream per family
 
     def __getattr__(self, k):
         return getattr(self._ctx, k)
 
     def coq_cases(self, tag, imports, ok_fn, case_type, cases):
         from hsverif import coq
-        return coq.eval_cases(f"{self._ctx.pid}_{tag}", imports, ok_fn, case_type, cases, shard=40, workers=12)
+        return coq.eval_cases(f"{self._ctx.pid}_{tag}", imports, ok_fn, case_type, cases,
+                              shard=400 if tag == "mlk" else 32, workers=12)
 
 
 def run(ctx):
     ctx.prove(["C17/Model.v", "C17/PBProofs.v", "C17/PBConv.v", "C17/Chain.v", "C17/ChainProofs.v", "C17/ChainConv.v", "C17/ML.v", "C17/MLProofs.v", "C17/Props.v"], allowed_axioms=(), trusted_base=TRUSTED)
-    n = ctx.n(100, 1500)
-    sctx = _Sharded(ctx)
-    stats = [run_family(sctx, fam, n * 3 if fam.name == "mlk" else n) for fam in FAMILIES]
+    n = ctx.n(60, 1500)
+    for fam in FAMILIES:
+        fam.parallel = fam.parallel and not ctx.quick      # quick: a worker pool costs more than it saves
+    stats = [run_family(_Sharded(ctx, fam.name), fam, n * 3 if fam.name == "mlk" else n) for fam in FAMILIES]
     merge_stats(ctx, stats, "random client schedules over 1-3 keys with repeated keys, per-message scripted link delays (messages overtake each other), all modes, 0-3 backups; non-trivial = some key written twice with >= 1 replica; distinct by JSON of the input")
     ctx.finish_obligations()
 
